@@ -486,12 +486,14 @@ pub fn check_cmp(mv: &MV, p: &Prim) -> CaseResult {
 fn g_prim() -> BS<Prim> {
     let f32s = prop_oneof![
         3 => any::<u32>(),
+        1 => prop_oneof![Just(0xffc0_0000u32), Just(0x7fc0_0001u32), Just(0xffe0_beefu32), Just(0x7fff_ffffu32)],
         1 => prop_oneof![Just(f32::NAN.to_bits()), Just(f32::INFINITY.to_bits()), Just(f32::NEG_INFINITY.to_bits()), Just(0f32.to_bits()), Just((-0f32).to_bits()), Just(1f32.to_bits()), Just(f32::MAX.to_bits()), Just(f32::MIN_POSITIVE.to_bits()), Just(1u32), Just(16777216f32.to_bits()), Just(0.1f32.to_bits())],
         1 => (-300i32..300).prop_map(|i| (i as f32).to_bits()),
     ];
     let f64s = prop_oneof![
         3 => any::<u64>(),
         2 => g_float(),
+        1 => prop_oneof![Just(0xfff8_0000_0000_0000u64), Just(0x7ff8_0000_0000_0001u64), Just(0x7ff0_0000_0000_0001u64), Just(0xfff4_0000_dead_beefu64), Just(0x7fff_ffff_ffff_ffffu64)],
         1 => prop_oneof![Just(f64::NAN.to_bits()), Just(f64::INFINITY.to_bits()), Just(f64::NEG_INFINITY.to_bits()), Just((-0f64).to_bits()), Just(9007199254740992f64.to_bits()), Just(18446744073709551616f64.to_bits()), Just((-9223372036854775808f64).to_bits())],
         2 => g_int().prop_map(|i| (i as f64).to_bits()),
     ];
